@@ -8,6 +8,7 @@ from __future__ import annotations
 import ast
 
 from ..astutil import body_walk, call_name, call_recv, calls_in, names_in, norm, strip_await, walk_no_nested
+from .. import flow
 from .common import env_of, parmap, typer, where
 
 PROP = "C09"
@@ -230,6 +231,73 @@ def r9_1(ctx):
 
     if src_ok:
         ctx.ok("R9.1", where(pm), f"source sanitised: {src_ok}")
+        # ... on *every* way out: each return of a non-constant name is dominated by the '..' guard
+        g = ctx.cfg(pm)
+        gtests = set()
+        for n_ in g.nodes:
+            if n_.kind == "test" and isinstance(n_.stmt, ast.If) and any(isinstance(x, ast.Raise) for st in n_.stmt.body for x in walk_no_nested(st)):
+                consts = [c.value for c in ast.walk(n_.ast) if isinstance(c, ast.Constant) and isinstance(c.value, str)]
+                if any(".." in c for c in consts):
+                    gtests.add(n_.id)
+        for n_ in g.nodes:
+            if n_.kind == "return" and n_.ast is not None and getattr(n_.ast, "value", None) is not None and not isinstance(n_.ast.value, ast.Constant):
+                ctx.paths_explored += 1
+                # a path on which the name is known to be empty carries nothing to confine
+                def empty_edge(e):
+                    t = g.nodes[e.src]
+                    if t.kind != "test" or t.ast is None:
+                        return False
+                    a = t.ast
+                    if isinstance(a, ast.Compare) and len(a.ops) == 1 and isinstance(a.comparators[0], ast.Constant) and a.comparators[0].value == "" and isinstance(a.left, ast.Name):
+                        return (isinstance(a.ops[0], ast.NotEq) and e.label == "false") or (isinstance(a.ops[0], ast.Eq) and e.label == "true")
+                    if isinstance(a, ast.UnaryOp) and isinstance(a.op, ast.Not) and isinstance(a.operand, ast.Name):
+                        return e.label == "true"
+                    if isinstance(a, ast.Name):
+                        return e.label == "false"
+                    return False
+
+                seen = flow.reach(g, [g.entry], flow.NORMAL, avoid=lambda x: x in gtests, edge_ok=lambda e: not empty_edge(e))
+                w = flow.path_to(g, seen, n_.id) if n_.id in seen else None
+                if w is not None:
+                    ctx.bad(
+                        "R9.1", pm.module, pm.qual, f"{norm(n_.ast, 80)} not behind the '..' guard",
+                        f"`{norm(n_.ast, 70)}` hands on a name on a path that never passes the confinement guard: such a name (e.g. "
+                        "`INBOX/../../other`) reaches the file-system sinks unchecked",
+                        n_.line, flow.fmt_path(g, w),
+                    )
+                else:
+                    ctx.ok("R9.1", where(pm), f"{norm(n_.ast, 50)} @{n_.line} is dominated by the '..' guard")
+    # the checked name must not be re-derived on its way to the sinks (a strip / replace / join after the check can re-create
+    # a leading '..'); the two rebinding forms confirmed by hand are listed
+    n_rb = 0
+    for key, params in NAME_PARAMS.items():
+        fi = p.func(key)
+        for s_ in body_walk(fi.node):
+            if isinstance(s_, (ast.Assign, ast.AugAssign)):
+                ts = s_.targets if isinstance(s_, ast.Assign) else [s_.target]
+                for t in ts:
+                    if isinstance(t, ast.Name) and t.id in params:
+                        n_rb += 1
+                        v = s_.value if isinstance(s_, ast.Assign) else None
+                        okv = False
+                        if isinstance(v, ast.Constant) and v.value == "inbox":
+                            okv = True  # the inbox constant
+                        if isinstance(v, ast.IfExp) and norm(v.body) == f"{t.id}[1:]" and norm(v.orelse) == t.id and "'/'" in norm(v.test):
+                            okv = True  # one leading '/' dropped (the namespace prefix): cannot create '..'
+                        if isinstance(v, ast.Call) and call_name(v) == "lstrip" and v.args and isinstance(v.args[0], ast.Constant) and v.args[0].value == "/" and norm(call_recv(v)) == t.id:
+                            okv = True
+                        if okv:
+                            ctx.ok("R9.1", where(fi), f"{norm(s_, 60)}: rebinding that cannot re-create a '..' prefix", nontrivial=False)
+                        elif sanitises(fi, t.id):
+                            ctx.ok("R9.1", where(fi), f"{norm(s_, 60)}: re-derived, and re-checked in this function")
+                        else:
+                            ctx.bad(
+                                "R9.1", fi.module, fi.qual, norm(s_, 90),
+                                f"the mailbox name is re-derived after the parser checked it (`{norm(s_, 70)}`): the confinement guard saw another "
+                                "string than the one that reaches the file system - e.g. \" ../other\" passes the guard as a folder called ' ..' and "
+                                "is then trimmed to `../other`",
+                                s_.lineno,
+                            )
     n_flow = 0
     for key, params in NAME_PARAMS.items():
         fi = p.func(key)
